@@ -10,6 +10,7 @@
 """
 import re
 
+from lib.keys import fn_key
 from lib import mir, errflow, cfgutil, ast as A
 
 # method -> reason / allowed "positional" use
@@ -115,6 +116,22 @@ def run(ctx, F):
             ctx.ok("F2-duplicate-key", "map literal: insert() returning Some is an error", None)
         else:
             ctx.fail("F2-duplicate-key", "map literal: insert() returning Some is an error", "the Option returned by OrderMap::insert in the map-literal arm does not lead to an error on the Some edge: a literal with two `==` keys would be accepted", where=ev.where(bi))
+    # ---------------------------------------------------------------- (ii') the map functions find keys only through OrderMap
+    ALT = re.compile(r"std::collections::(HashMap|HashSet|BTreeMap|BTreeSet|hash_map|hash_set|btree_map|btree_set)|::binary_search|::sort(_by|_unstable|_by_key|_by_cached_key)?$|::dedup(_by|_by_key)?$|std::hash::Hash>::hash")
+    n_mf = 0
+    for d, b in sorted(prog.bodies.items()):
+        if not d.lstrip("<&").startswith("sass::functions::map::"):
+            continue
+        if d.rsplit("::", 1)[-1] in ("expose", "create_module"):
+            continue          # the registration code (function tables keyed by name), not a map function
+        n_mf += 1
+        hits = sorted({mir.short(mir.callee_name(t) or "") for bi, t in b.calls() if ALT.search(mir.callee_name(t) or "") or any(ALT.search(g or "") for g in (t["callee"].get("gargs") or []))})
+        hits += sorted({l["ty"][:60] for l in b.locals if re.search(r"std::collections::(HashMap|HashSet|BTreeMap|BTreeSet)<", l["ty"]) and "OrderMap" not in l["ty"]})
+        if hits:
+            ctx.fail("F8-map-functions-use-eq", f"{fn_key(d, prog)}|{hits[0][:60]}", f"{mir.short(d)} looks map keys up through {hits[:3]} (hashing / ordering / a rendered form of the key) instead of OrderMap's `==`: keys that are equal but written differently (1in / 96px, \"a\" / a) are treated as different", where=b.where())
+    if n_mf:
+        ctx.ok("F8-map-functions-use-eq", "sass::functions::map uses only OrderMap lookups", {"bodies": n_mf})
+    ctx.floor("bodies of the map function module", n_mf, 10)
     # ---------------------------------------------------------------- (iii) equality of maps
     derived = None
     hand = None
